@@ -34,7 +34,16 @@ Calibration
   documents "arrays first, then slices", so the reference moves the broadcast axes to the front.
 * ``.blocks[...]`` keeps dimensionality for integer indices (documented): reference built accordingly.
 * full-shape boolean masks are generated only as the sole index (what dask documents: x[x > 0]).
-* (filled in during calibration, see bottom of file: CALIBRATION)
+* blocks[]: a selection of zero blocks along an axis has no dask representation (empty chunks tuple -> ValueError);
+  rejected as outside the domain; the random generator mostly draws non-empty block selections.
+* NumPy skips the bounds check when the broadcast selection is empty (x[np.array([], int), np.array([3])] on a
+  (5, 3) array); out-of-bounds entries are rejected by the harness itself, dask raising IndexError there is right.
+* More than one 1-d list/array indexer is documented as unsupported; dask raises NotImplementedError for most
+  combinations but computes an orthogonal selection (or fails) when dask boolean arrays are involved: all
+  counted as unsupported (side counter two_array_indexers_not_rejected_by_dask).
+* vindex needs at least one index array (all-slices raises a documented IndexError): rejected otherwise.
+* Shrinking first keeps the symptom; for exception symptoms it then continues to any smaller input that still
+  raises (the exception type/location depends on what else is in the index), never from a value mismatch.
 """
 from __future__ import annotations
 
@@ -72,7 +81,30 @@ CLAIM = ("Every generated index was applied to the real dask.array (getitem / vi
 LEVEL_NOTE = "NumPy is the reference; domain limited to the index kinds the statement names and dask documents"
 TECHNIQUE = "runtime monitoring: NumPy differential oracle over a complete small slice space and generated index tuples"
 
-PENDING = {}
+PENDING = {
+    # DESIGN section 6 #16, first mechanism (normalize_slice): fix proposed in findings_proposed/C20.md
+    "getitem:slice[negstep,start<-n]:shape": "negative-step slice whose start lies below -n selects elements (NumPy: none); normalize_slice",
+    # DESIGN section 6 #16, second mechanism (None next to an array index; slice_with_newaxes & friends)
+    "getitem:None+int-list:AttributeError@array/slicing.py:slice_with_newaxes": "x[None, [0, 1, .., n-1]] (take's arange shortcut returns Alias tasks)",
+    "getitem:None+int-list&split-chunks:TypeError@_task_spec.py:__call__": "x[None, [1, 2]] when an output chunk gathers from two input chunks: concatenate_arrays() loses its axis argument",
+    "getitem:None+int+int-list:IndexError@array/slicing.py:slice_with_newaxes": "x[[1], 0, None]: tuple index out of range",
+    "getitem:None+int+array-index:size-1-axis-misplaced": "x[[1, 2], 0, None, 0:2]: computed value has the new axis in the wrong place (lazy shape right) - silent",
+    "getitem:None+dask-int-array:AssertionError@array/slicing.py:slice_with_int_dask_array": "None together with a dask integer indexer: assert len(index) == x.ndim",
+    "getitem:None+dask-bool-array:IndexError@array/slicing.py:getitem_variadic": "None together with a 1-d dask boolean indexer",
+    # integer + array separated by a slice: NumPy moves the broadcast axis first, dask does not
+    "getitem:int&array-index-separated:array-axis-not-moved-first": "x[0, :, [1, 2]] has shape (n1, 2) in dask, (2, n1) in NumPy",
+    # dask integer indexer equal to the chunk offsets: key-name collision with the internal offsets array
+    "getitem:dask-int-array[=chunk-offsets]:lazy-shape": "x[da.from_array([0], chunks=1)] on a one-chunk array: lazy shape (n,), computes 1 element",
+    "getitem:dask-int-array[=chunk-offsets]&split-chunks:ValueError@array/core.py:normalize_chunks": "x[da.from_array([0, 3], chunks=1)] with chunks (3, 3) raises",
+    # reshape/ravel of arrays with a zero-length axis and several chunks (root cause in reshape_rechunk), reached through x[mask]
+    "getitem:full-shape-mask&split-chunks&zero-length-axis:TypeError@array/reshape.py:reshape_rechunk": "x[mask] with shape (4, 0), chunks ((2, 2), (0,)): ravel fails",
+    "getitem:full-shape-dask-mask[own-chunks]&zero-length-axis:TypeError@array/reshape.py:reshape_rechunk": "same, the split chunks are those of the dask mask",
+    "getitem:full-shape-mask&split-chunks&zero-length-axis:IndexError@array/reshape.py:reshape_rechunk": "same with two zero-length axes",
+    # vindex corner cases
+    "vindex:int-array[0d]:TypeError@array/core.py:_vindex_array": "x.vindex[np.array(2)]: len() of a 0-d index array",
+    "vindex:int-array[empty,2d]:ValueError@array/core.py:_vindex_array": "x.vindex[np.zeros((2, 0), int)]: max of an empty array",
+    "vindex:int-array[empty,2d]&split-chunks:TypeError@array/reshape.py:reshape_rechunk": "empty 2-d point set on a chunked array: reshape of the zero-size result fails",
+}
 
 DTYPES = ["int64", "int64", "float64", "float64", "int32", "float32", "complex128", "datetime64[ns]", "bool", "uint8", "int8"]
 STEPS = [None, 1, -1, 2, -2, 3, -3]
@@ -162,6 +194,9 @@ def evaluate(op, shape, chunks, dtype, enc, bare, threads=False, blockcheck=True
         exp_chunks = None
         oob = IX.out_of_bounds(enc, [len(c) for c in chunks] if op == "blocks" else shape)
         try:
+            if op == "vindex" and not any(en["k"] == "varr" for en in enc):
+                # vindex documents IndexError when there is no index array to vectorise over
+                raise IndexError("vindex without an index array is outside the domain (harness check)")
             if oob:
                 # Calibration: NumPy skips the bounds check when the broadcast selection is empty
                 # (x[np.array([], int), np.array([3])] on a (5, 3) array); dask raising IndexError is right.
@@ -214,6 +249,11 @@ def evaluate(op, shape, chunks, dtype, enc, bare, threads=False, blockcheck=True
                     o = None
                 if o is not None and compare_arrays(rv, o, exact=True) is None:
                     sym = "array-axis-not-moved-first"
+            rs, es = np.shape(rv), np.shape(e)
+            if (op == "getitem" and m[0] == "shape" and [d for d in rs if d != 1] == [d for d in es if d != 1]
+                    and any(en["k"] == "none" for en in enc)
+                    and compare_arrays(np.reshape(rv, es), e, exact=True) is None):
+                sym = "size-1-axis-misplaced"   # same elements in the same order, a length-1 axis sits elsewhere
             out.status, out.symptom, out.msg = "mismatch", sym, m[1]
             return out
         m = lazy_meta_mismatch(r, rv)
@@ -288,7 +328,7 @@ def run_case(case, ctx):
 
 
 MISMATCH_SYMPTOMS = ("shape", "dtype", "values", "lazy-shape", "lazy-dtype", "lazy-chunks", "block-shape", "block-placement",
-                     "array-axis-not-moved-first", "result-not-a-dask-array")
+                     "array-axis-not-moved-first", "size-1-axis-misplaced", "result-not-a-dask-array")
 
 
 def classify(op, shape, chunks, dtype, enc, bare, sym):
@@ -321,8 +361,12 @@ def classify(op, shape, chunks, dtype, enc, bare, sym):
                 if o.status in ("exc", "mismatch") and o.symptom == sym_m:
                     op_m, enc_m, shape_m, chunks_m, fixed = "getitem", [e], (n,), ((n,),), False
                     break
+    toks = IX.tokens(enc_m, shape_m)
     if sym_m == "array-axis-not-moved-first":
         feat = "int&array-index-separated"
+    elif (sym_m == "size-1-axis-misplaced" and "None" in toks and any(t.startswith(("int", "np-int")) and "-" not in t[:4] for t in toks)
+          and any(t.startswith(("int-list", "int-array", "bool-list", "bool-array")) for t in toks)):
+        feat = "None+int+array-index"
     else:
         feat = IX.label_features(enc_m, shape_m, chunks_m, layout=not fixed)
     label = "%s:%s:%s" % (op_m, feat, sym_m)
